@@ -108,6 +108,10 @@ func (gi *gitlabImporter) ImportAll(ctx context.Context, repo *cache.RepoCache, 
 	return out, nil
 }
 
+// emptyTitlePlaceholder replaces a title without any visible character (a zero
+// width space for instance), which git-bug does not accept. Same as the GitHub importer.
+const emptyTitlePlaceholder = "<empty string>"
+
 func (gi *gitlabImporter) ensureIssue(repo *cache.RepoCache, issue *gitlab.Issue) (*cache.BugCache, error) {
 	// ensure issue author
 	author, err := gi.ensurePerson(repo, issue.Author.ID)
@@ -129,11 +133,16 @@ func (gi *gitlabImporter) ensureIssue(repo *cache.RepoCache, issue *gitlab.Issue
 		return nil, err
 	}
 
+	title := text.CleanupOneLine(issue.Title)
+	if text.Empty(title) {
+		title = emptyTitlePlaceholder
+	}
+
 	// if bug was never imported, create bug
 	b, _, err = repo.Bugs().NewRaw(
 		author,
 		issue.CreatedAt.Unix(),
-		text.CleanupOneLine(issue.Title),
+		title,
 		text.Cleanup(issue.Description),
 		nil,
 		map[string]string{
@@ -285,10 +294,16 @@ func (gi *gitlabImporter) ensureIssueEvent(repo *cache.RepoCache, b *cache.BugCa
 			return nil
 		}
 
+		// no title at all: the note is not the expected diff, reported below as an invalid title
+		title := event.(NoteEvent).Title()
+		if title != "" && text.Empty(title) {
+			title = emptyTitlePlaceholder
+		}
+
 		op, err := b.SetTitleRaw(
 			author,
 			event.CreatedAt().Unix(),
-			event.(NoteEvent).Title(),
+			title,
 			map[string]string{
 				metaKeyGitlabId: event.ID(),
 			},
@@ -301,6 +316,11 @@ func (gi *gitlabImporter) ensureIssueEvent(repo *cache.RepoCache, b *cache.BugCa
 
 	case EventAddLabel:
 		if errResolve == nil {
+			return nil
+		}
+		if text.Empty(event.(LabelEvent).Label.Name) {
+			// the label was deleted ("label": null) or its name has no visible
+			// character: nothing that a label change could record
 			return nil
 		}
 
@@ -317,6 +337,11 @@ func (gi *gitlabImporter) ensureIssueEvent(repo *cache.RepoCache, b *cache.BugCa
 
 	case EventRemoveLabel:
 		if errResolve == nil {
+			return nil
+		}
+		if text.Empty(event.(LabelEvent).Label.Name) {
+			// the label was deleted ("label": null) or its name has no visible
+			// character: nothing that a label change could record
 			return nil
 		}
 
